@@ -8,7 +8,8 @@
     along [tau]. *)
 From Coq Require Import List Lia Bool String Ascii NArith FMapPositive.
 From Patronus Require Import Expr ExprLemmas ExprEqb Eval SysClosed Btor2Parse Btor2Ser Btor2ExprFacts Btor2ParseProofs
-     Btor2Sound Btor2SerProofs Btor2RoundTripSpec Btor2RtExpr Btor2RtLines Btor2RtSim Btor2RtSys.
+     Btor2Sound Btor2SerProofs Btor2RoundTripSpec Btor2RtExpr Btor2RtLines Btor2RtSim Btor2RtSys Btor2Names.
+From Coq Require Import Permutation.
 Import ListNotations.
 Open Scope string_scope.
 Open Scope list_scope.
@@ -211,4 +212,87 @@ Proof.
   destruct (roundtrip_sem_v v sy lines Hw ltac:(intros _; exact H1) Hnd Hfit Hser Hlen) as (sy' & tau & pull & Hp & Hr).
   exists sy', tau, pull. split; [|exact Hr].
   intros [|]; [exact Hp|]. rewrite (parse_lines_v_ref v lines); [exact Hp|]. rewrite Hp. intros k. discriminate.
+Qed.
+
+(** ** the symbols of an accepted system are pairwise distinct (every text, every reader variant) *)
+Lemma lookup_name_In s l n : lookup_name s l = Some n -> In (s, n) l.
+Proof.
+  induction l as [|[e m] l IH]; cbn [lookup_name]; [discriminate|].
+  destruct (expr_eqb e s) eqn:E; intros H; [apply expr_eqb_eq in E; inversion H; subst; left; reflexivity|right; auto].
+Qed.
+
+Lemma nodup_snd {A B} (l : list (A * B)) x y n : NoDup (map snd l) -> In (x, n) l -> In (y, n) l -> x = y.
+Proof.
+  induction l as [|[a b] l IH]; cbn [map snd]; intros Hnd Hx Hy; [contradiction|]. inversion Hnd as [|? ? Hn Hnd']; subst.
+  destruct Hx as [Hx|Hx], Hy as [Hy|Hy].
+  - congruence.
+  - inversion Hx; subst. exfalso. apply Hn. apply in_map_iff. exists (y, n). auto.
+  - inversion Hy; subst. exfalso. apply Hn. apply in_map_iff. exists (x, n). auto.
+  - apply IH; auto.
+Qed.
+
+Lemma NoDup_map_inj_on {A B} (f : A -> B) (l : list A) :
+  NoDup l -> (forall x y, In x l -> In y l -> f x = f y -> x = y) -> NoDup (map f l).
+Proof.
+  induction l as [|a l IH]; cbn [map]; intros Hnd Hinj; [constructor|]. inversion Hnd; subst. constructor.
+  - intros Hin. apply in_map_iff in Hin. destruct Hin as (b & Hb & Hin). apply H1.
+    rewrite (Hinj a b); auto; [left; reflexivity|right; exact Hin].
+  - apply IH; auto. intros x y Hx Hy. apply Hinj; right; assumption.
+Qed.
+
+Lemma filter_partition_perm {A} (p : A -> bool) (l : list A) :
+  Permutation (filter p l ++ filter (fun x => negb (p x)) l) l.
+Proof.
+  induction l as [|a l IH]; cbn [filter]; [constructor|]. destruct (p a); cbn [negb app].
+  - constructor. exact IH.
+  - apply Permutation_sym. apply Permutation_cons_app. apply Permutation_sym. exact IH.
+Qed.
+
+Lemma final_name ps x : NI ps -> In x (decl ps) ->
+  exists n, In (x, n) (p_symnames ps) /\ sym_name (rename_sym (renames_of ps) x) = n /\
+            is_symbol (rename_sym (renames_of ps) x) = true.
+Proof.
+  intros Hni Hx. pose proof (ni_sym _ Hni x Hx) as Hs. unfold rename_sym.
+  destruct (lookup_name x (renames_of ps)) as [n|] eqn:E.
+  - exists n. apply lookup_name_In in E. unfold renames_of in E. apply in_flat_map in E. destruct E as (s & Hsin & E).
+    destruct (lookup_name (st_sym s) (p_symnames ps)) as [n'|] eqn:El; [|contradiction].
+    destruct (String.eqb n' (sym_name (st_sym s))); [contradiction|]. destruct E as [E|[]]. inversion E; subst.
+    split; [apply lookup_name_In; exact El|]. destruct (st_sym s); cbn [is_symbol] in Hs; try discriminate; split; reflexivity.
+  - exists (sym_name x). split; [apply (ni_decl _ Hni); exact Hx|]. split; [reflexivity|exact Hs].
+Qed.
+
+Lemma rename_sym_inj ps x y : NI ps -> In x (decl ps) -> In y (decl ps) ->
+  rename_sym (renames_of ps) x = rename_sym (renames_of ps) y -> x = y.
+Proof.
+  intros Hni Hx Hy H. destruct (final_name ps x Hni Hx) as (n & Hn & Hsn & _). destruct (final_name ps y Hni Hy) as (n' & Hn' & Hsn' & _).
+  rewrite H in Hsn. assert (E : n = n') by congruence. rewrite <- E in Hn'. apply (nodup_snd _ _ _ _ (ni_nodup _ Hni) Hn Hn').
+Qed.
+
+Theorem accepted_distinct v dbg ls sy : parse_lines_v v dbg ls = POk sy -> NoDup (declared sy).
+Proof.
+  intros H. unfold parse_lines_v in H. apply pbind_ok in H. destruct H as ([sy0 ren] & Hr & H). inversion H; subst sy. clear H.
+  unfold parse_raw_v in Hr. apply pbind_ok in Hr. destruct Hr as ([ps err] & Hf & Hr). destruct err; [discriminate|].
+  inversion Hr; subst sy0 ren. clear Hr.
+  pose proof (NI_fold v dbg ls p_empty false ps false NI_empty Hf) as Hni.
+  rewrite rename_sys_all. unfold declared. cbn [demote sys_of_pstate s_inputs s_states].
+  set (ren := renames_of ps). set (rs := rename_state ren).
+  assert (Hplain : forall s, is_plain (rs s) = is_plain s).
+  { intros s. unfold rs, rename_state, is_plain. cbn [st_init st_next]. destruct (st_init s), (st_next s); reflexivity. }
+  rewrite (filter_map_comm rs is_plain is_plain) by exact Hplain.
+  rewrite (filter_map_comm rs (fun s => negb (is_plain s)) (fun s => negb (is_plain s))) by (intros x; f_equal; apply Hplain).
+  rewrite !map_map.
+  assert (Hin_eq : map (rename ren) (p_inputs ps) = map (rename_sym ren) (p_inputs ps)).
+  { apply map_ext_in. intros x Hx. apply rename_of_symbol. apply (ni_sym _ Hni). apply in_or_app. left. exact Hx. }
+  assert (Hst_eq : forall l, (forall s, In s l -> In s (p_states ps)) ->
+                     map (fun x => st_sym (rs x)) l = map (rename_sym ren) (map st_sym l)).
+  { intros l Hl. rewrite map_map. apply map_ext_in. intros s Hs. unfold rs, rename_state. cbn [st_sym]. apply rename_of_symbol.
+    apply (ni_sym _ Hni). apply in_or_app. right. apply in_map. apply Hl. exact Hs. }
+  rewrite Hin_eq, (Hst_eq (filter is_plain (p_states ps))) by (intros s Hs; apply filter_In in Hs; tauto).
+  rewrite (Hst_eq (filter (fun s => negb (is_plain s)) (p_states ps))) by (intros s Hs; apply filter_In in Hs; tauto).
+  rewrite <- app_assoc, <- !map_app.
+  assert (Hperm : Permutation (p_inputs ps ++ map st_sym (filter is_plain (p_states ps) ++
+                                                           filter (fun s => negb (is_plain s)) (p_states ps))) (decl ps)).
+  { unfold decl. apply Permutation_app_head. apply Permutation_map. apply filter_partition_perm. }
+  apply (Permutation_NoDup (Permutation_sym (Permutation_map (rename_sym ren) Hperm))).
+  apply NoDup_map_inj_on; [apply (ni_dd _ Hni)|]. intros x y Hx Hy. apply (rename_sym_inj ps); auto.
 Qed.
